@@ -490,7 +490,7 @@ def run_pair(cfg):
         p["expected"] = exp
         return p
     return common.explore(cfg, harness, twin=tw, on_leaf=on_leaf, witness_fn=witness,
-                          witness_stride=cfg.get("wstride", 0), deadline_s=cfg.get("deadline_s", 1800),
+                          witness_stride=cfg.get("wstride", 0), deadline_s=cfg.get("deadline_s", 1200),
                           seed=cfg.get("seed", 0))
 
 
@@ -533,4 +533,4 @@ def run_config(cfg):
 
     return common.explore(cfg, harness, twin=tw, on_leaf=on_leaf, witness_fn=witness,
                           witness_stride=cfg.get("wstride", 0), max_paths=cfg.get("max_paths"),
-                          deadline_s=cfg.get("deadline_s", 1800), seed=cfg.get("seed", 0))
+                          deadline_s=cfg.get("deadline_s", 1200), seed=cfg.get("seed", 0))
